@@ -2,7 +2,7 @@ SPECIFICATION BSpec
 CONSTANTS
   System <- SysC2063
   Alphabet <- AlphaC2063
-  MaxLen = 9
+  MaxLen = 8
   Lint = TRUE
   SortVariant = "code"
   StaleOK = TRUE
